@@ -150,8 +150,10 @@ func NewSplitCarReader(
 
 		// if local file, check the size:
 		if _, ok := fi.(*FileSplitCarReader); ok {
-			expectedSize := int(cf.HeaderSize) + int(cf.ContentSize) // NOTE: valid only for pre-upload split CARs. They get padded after upload.
-			if size != expectedSize {
+			// The file holds the header and the content, followed by the subset node (and, in the last piece,
+			// the epoch node) that split-car appends without counting it, or by the padding added on upload.
+			expectedSize := int(cf.HeaderSize) + int(cf.ContentSize)
+			if size < expectedSize {
 				return nil, fmt.Errorf(
 					"remote file %q has unexpected size: saved=%d actual=%d (diff=%d)",
 					cf.Name,
